@@ -86,6 +86,10 @@ def gen_conf(rng, i):
         conf["_rawkeys"] = True
     if rng.random() < 0.35:
         conf["_inc"] = {"tasks": {"inc9": {"command": ['echo "inc9" >> "$PROJ/out"'], "env": {"E1": 5}}}, "variables": {"fromimport": "yes"}}
+        if rng.random() < 0.6:
+            # the imported file is a YAML file whatever the format of the importing one, with names YAML reads as integers
+            conf["_inc"]["tasks"]["77"] = {"command": ['echo "seventy-seven" >> "$PROJ/out"'], "variables": {"5": "five"}, "env": {"404": "nf"}}
+            conf["_inc_yaml"] = True
     return conf
 
 
@@ -144,12 +148,15 @@ def observe(workdir, tag, confs, norun=()):
         for fmt in ("yaml", "json", "toml"):
             extra = {}
             doc = {k: v for k, v in conf.items() if not k.startswith("_")}
-            if "_inc" in conf:                       # an imported file of the same format, next to the configuration
-                doc["import"] = ["inc." + fmt]
+            incfmt = "yaml" if conf.get("_inc_yaml") else fmt
+            if "_inc" in conf:                       # an imported file next to the configuration (of the same format, or always YAML)
+                doc["import"] = ["inc." + incfmt]
             try:
                 text = fmtlib.serialise(doc, fmt)
                 if "_inc" in conf:
-                    extra["inc." + fmt] = fmtlib.serialise(conf["_inc"], fmt)
+                    extra["inc." + incfmt] = fmtlib.serialise(conf["_inc"], incfmt)
+                    if conf.get("_inc_yaml"):
+                        extra["inc.yaml"] = re.sub(r'^(\s*)"(\d+)":', r"\1\2:", extra["inc.yaml"], flags=re.M)
             except fmtlib.NotTomlable:
                 text = None
             if text is not None and fmt == "yaml" and conf.get("_rawkeys"):
@@ -157,8 +164,9 @@ def observe(workdir, tag, confs, norun=()):
                 text = re.sub(r'^(\s*)"(\d+)":', r"\1\2:", text, flags=re.M)
                 extra = {k: re.sub(r'^(\s*)"(\d+)":', r"\1\2:", v, flags=re.M) for k, v in extra.items()}
             fn = "cfg." + fmt
-            cmds = [["list"]] + [["show", t] for t in sorted(conf.get("tasks", {}))] + [["graph", p] for p in sorted(conf.get("pipelines", {}))] + \
-                   [["--raw", "run", "task", t] for t in sorted(conf.get("tasks", {}))] + [["--raw", "run", "pipeline", p] for p in sorted(conf.get("pipelines", {}))]
+            alltasks = sorted(set(conf.get("tasks", {})) | set(conf.get("_inc", {}).get("tasks", {})))
+            cmds = [["list"]] + [["show", t] for t in alltasks] + [["graph", p] for p in sorted(conf.get("pipelines", {}))] + \
+                   [["--raw", "run", "task", t] for t in alltasks] + [["--raw", "run", "pipeline", p] for p in sorted(conf.get("pipelines", {}))]
             for cmd in cmds:
                 if text is None or (key in norun and cmd[0] == "--raw"):
                     continue
